@@ -90,6 +90,45 @@ def handle (cmd : String) (args : List String) : Option String :=
       | .trap => some "trap"
       | .ok p => some (renderTvd p false cs)
     | _, _, _ => none
+  | "hv.cvard", ac :: n :: hex :: coords =>
+    match ac.toNat?, n.toNat?, parseHex? hex, parseInts? coords with
+    | some ac, some n, some d, some cs =>
+      -- the caller's buffer: `[i32::MAX, i32::MIN, 0, 0, …]`
+      let buf : List Int := (List.range n).map (fun i => if i = 0 then 2147483647 else if i = 1 then -2147483648 else 0)
+      match cvarDeltas d ac cs buf with
+      | .err e => some (errStr e)
+      | .trap => some "trap"
+      | .ok out => some s!"{out.length}.{fnv (out.map u32OfInt)} {joinInts (out.take 4)}"
+    | _, _, _, _ => none
+  | "hv.gvarhdr", hex :: gids =>
+    match parseHex? hex, parseNats? gids with
+    | some d, some gids =>
+      match gvarRead d with
+      | none => some "eO"
+      | some g =>
+        let st := match g.sharedTuples with
+          | .err e => errStr e
+          | .trap => "trap"
+          | .ok sd => s!"{sd.length}.{fnv sd}"
+        let per := gids.map (fun gid => match g.dataForGid gid with
+          | .err e => errStr e
+          | .trap => "trap"
+          | .ok none => "n"
+          | .ok (some b) => s!"{b.length}.{fnv b}")
+        some s!"{optStr g.axisCount} {optStr g.sharedTupleCount} {optStr g.glyphCount} {optStr g.flags} {optStr g.dao} {g.offsLen} {st} | {" ".intercalate per}"
+    | _, _ => none
+  | "hv.gvar", gid :: hex :: coords =>
+    match gid.toNat?, parseHex? hex, parseInts? coords with
+    | some gid, some d, some cs =>
+      match gvarRead d with
+      | none => some "eO"
+      | some g =>
+        match g.glyphVariationData gid with
+        | .err e => some (errStr e)
+        | .trap => some "trap"
+        | .ok none => some "none"
+        | .ok (some p) => some (renderTvd p true cs)
+    | _, _, _ => none
   | _, _ => none
 
 end FontVerif.Drv.C01HandVar
